@@ -44,6 +44,10 @@ def check(ctx):
     load(ctx, prog, hier)
     filename(ctx, prog, ev)
     cipher(ctx, prog)
+    # the descriptor loader recomputes the stream hash from BlobInfo objects: they must hold the values of the JSON unchanged — a coercion (int(), str())
+    # maps tampered values (5008.75, true) back onto the committed ones and the tampering is accepted
+    R.ctor_stores(ctx, "C02-D4/STORE", "lbry.blob.blob_info.BlobInfo.__init__", {"blob_hash": "blob_hash", "blob_num": "blob_num", "length": "length", "iv": "iv"},
+                  "what is hashed is what the descriptor said")
     # "publish … produces blobs stored under their SHA-384": create_from_unencrypted waits for `verified`; that this means "the bytes are in the
     # file" is C01's chain writer -> save_verified_blob -> write task -> executor job — those rule instances are evaluated here as well
     R.share(ctx, "C01", {"C01-D6/AWAIT": "C02-D7/AWAIT", "C01-D6/DEP": "C02-D7/DEP", "C01-D6/OVERRIDE": "C02-D7/OVERRIDE", "C01-D5/DEP": "C02-D7/CHAIN", "C01-D5/ORDER": "C02-D7/ORDER"})
